@@ -610,6 +610,8 @@ def edit_inner(m, kind, arg):
             if int(sel[0]['eaddr'], 16) < int(sel[0]['saddr'], 16):
                 return None
         elif what == 'other_proto':
+            if sel[0]['proto'] == 0:
+                return None                  # ANY -> a protocol is a narrowing, which a peer may do
             sel[0]['proto'] = 17 if sel[0]['proto'] != 17 else 6
         elif what == 'wide_first':           # a wide selector first, the legitimate one after it
             n = len(sel[0]['saddr']) // 2
@@ -617,6 +619,13 @@ def edit_inner(m, kind, arg):
             target['selectors'] = [wide] + sel
         elif what == 'swap':
             tsi[0]['selectors'], tsr[0]['selectors'] = tsr[0]['selectors'], tsi[0]['selectors']
+        elif what == 'port_range':           # every selector of that payload asks for a genuine port range
+            for x_ in sel:
+                x_['sport'], x_['eport'] = 1000, 2000
+        elif what == 'only_first':           # keep only the first (usually the narrow, packet-specific) selector
+            target['selectors'] = sel[:1]
+        elif what == 'only_last':
+            target['selectors'] = sel[-1:]
         else:
             raise ValueError(what)
         return inner
